@@ -78,6 +78,8 @@ def apply_contract(interp, c, fv, args, kwargs, node):
                 vars_[nm] = args[i]
             elif nm in kwargs:
                 vars_[nm] = kwargs[nm]
+            elif nm in c.defaults:
+                vars_[nm] = interp.sub(True).eval(c.defaults[nm], Env(None, {}))
             else:
                 raise Unsupported(f"{c.key}: missing argument {nm}")
     from .values import VOpt, parse_shape
